@@ -125,3 +125,16 @@ Definition ex7 : pairspec :=
 
 Definition ex6_v : val := (VStruct [("Mapper", (VStruct [])); ("ID", (VInt (7)%Z)); ("Name", (VStr "n")); ("Count", (VInt (-3)%Z)); ("In", (VStruct [("A", (VInt (4)%Z))])); ("Amount", (VStr "abc"))]).
 Definition ex7_v : val := (VStruct [("Mapper", (VStruct [])); ("A", (VInt (1)%Z)); ("In", (VStruct [("A", (VInt (4)%Z))]))]).
+
+(* ex8: two mapper methods of one signature and a constructor parameter (K_map_ctor_func_last) *)
+Definition ex8 : pairspec :=
+(let E : env := [((PSrc, "Mapper"), DStruct []);
+  ((PSrc, "T"), DStruct [{| sf_name := "Mapper"; sf_emb := true; sf_ty := (TNamed PSrc "Mapper"); sf_tag := "" |}; {| sf_name := "Ratio"; sf_emb := false; sf_ty := (TBasic BString); sf_tag := "" |}]);
+  ((PDst, "T"), DStruct [{| sf_name := "ratio"; sf_emb := false; sf_ty := (TBasic BInt8); sf_tag := "" |}]);
+  (((POth "common"), "Level"), DBasic BInt);
+  (((POth "common"), "Code"), DBasic BString);
+  (((POth "common"), "Ratio"), DBasic BFloat64);
+  (((POth "common"), "Flag"), DBasic BBool);
+  (((POth "common"), "Tiny"), DBasic BInt8);
+  (((POth "common"), "Money"), DStruct [{| sf_name := "Units"; sf_emb := false; sf_ty := (TBasic BInt64); sf_tag := "" |}; {| sf_name := "Cur"; sf_emb := false; sf_ty := (TBasic BString); sf_tag := "" |}])] in let FN : list mfunc := [{| mf_name := "F0"; mf_param := (TBasic BString); mf_result := (TBasic BInt8) |}; {| mf_name := "F1"; mf_param := (TBasic BString); mf_result := (TBasic BInt8) |}] in {| ps_env := E; ps_fuel := 11; ps_jobs := [{| j_env := E; j_fuel := 11; j_src := "T"; j_dst := "T"; j_funcs := FN; j_ic := false; j_src_acc := []; j_dst_acc := [{| ac_name := "Ratio"; ac_ty := (TBasic BInt8); ac_set := false; ac_path := ["ratio"] |}; {| ac_name := "SetRatio"; ac_ty := (TBasic BInt8); ac_set := true; ac_path := ["ratio"] |}]; j_src_ctor := []; j_dst_ctor := [{| cp_field := "ratio"; cp_path := ["ratio"]; cp_ty := (TBasic BInt8) |}]; j_src_shootnew := false; j_manual_to := None; j_manual_from := None |}]; ps_funcs := [("F0", (FLen BInt8 (1)%Z)); ("F1", (FLen BInt8 (7)%Z))]; ps_manual_to := []; ps_manual_from := []; ps_way := WBoth |}).
+Definition ex8_v : val := (VStruct [("Mapper", (VStruct [])); ("Ratio", (VStr "ab"))]).
